@@ -142,7 +142,7 @@ def h_history(ctx, skeleton=(), exch='futures'):
     ctx.event('history-complete')
 
 
-def skeletons(length, exch):
+def skeletons(length, exch, max_orders=3):
     kinds = [['S', 'buy', 'LIMIT', 0], ['S', 'sell', 'LIMIT', 0], ['S', 'buy', 'MARKET', 0], ['S', 'sell', 'STOP', 1]]
     if exch == 'spot':
         kinds = [['S', 'buy', 'LIMIT', 0], ['S', 'buy', 'MARKET', 0], ['S', 'sell', 'LIMIT', 1], ['S', 'sell', 'STOP', 1]]
@@ -152,7 +152,7 @@ def skeletons(length, exch):
         if len(prefix) == length:
             out.append(list(prefix))
             return
-        if nsub < 3:
+        if nsub < max_orders:
             for k in kinds:
                 if k[3] and nsub == 0:
                     continue
@@ -221,7 +221,7 @@ def _jobs(tier):
     lens = (2, 3, 4) if tier == 'quick' else (2, 3, 4, 5)
     for exch in ('futures', 'spot'):
         for n in lens:
-            for s in skeletons(n, exch):
+            for s in skeletons(n, exch, max_orders=3 if n <= 4 else 1):
                 # keep histories that contain at least one call on an order or a bulk operation
                 if not any(op[0] != 'S' for op in s):
                     continue
@@ -247,7 +247,7 @@ def setup(tier, seed):
                        'order must leave every balance/position/margin-table/trade-table observable provably equal (z3), the active registry '
                        'must equal the submitted-not-final set and every executed order must be in exactly one trade; the same lifecycle '
                        'invariants are asserted for every order of symbolic backtest sessions.',
-        'bounds': {'skeleton_length': '2-4 (quick) / 2-5 (thorough)', 'orders': 3, 'skeletons': len(jobs)},
+        'bounds': {'skeleton_length': '2-4 with up to 3 orders (quick); thorough adds length 5 on a single order', 'orders': 3, 'skeletons': len(jobs)},
         'outside': ['more than 3 orders / longer histories', 'live-mode statuses (queued, partially filled)'],
         'stubs': list(jstubs.INSTALLED),
         'assumptions': ['floats as reals'],
